@@ -148,7 +148,7 @@ def main(tier, seed):
     eng = engine.Engine(PROP, tier, seed, "model_checking")
     engine.selftest(eng)
     plans = [dict(max_cmds=4, max_edits=1), dict(max_cmds=3, max_edits=1, frozen=True)] if tier == "quick" else \
-            [dict(max_cmds=5, max_edits=1), dict(max_cmds=4, max_edits=2, rich=True), dict(max_cmds=4, max_edits=1, frozen=True, rich=True)]
+            [dict(max_cmds=4, max_edits=1), dict(max_cmds=3, max_edits=2, rich=True), dict(max_cmds=3, max_edits=1, frozen=True, rich=True)]
     tot = {"states": 0, "transitions": 0}
     runs = []
     plans.append(dict(max_cmds=12 if tier == "quick" else 14, max_edits=0, long=True))
